@@ -170,6 +170,33 @@ def check(run, model, tier):
                 any(isinstance(c.func, ast.Attribute) and c.func.attr in MUTATORS and dotted(c.func.value) == track for c in n.calls())]
         run.inst('ORDER.reject-leaves-tracked', f, 'tracking deque unmodified before raise', not muts,
                  'the tracking deque is modified on a path to the rejection' if muts else '', node=r.ast, obligation=True)
+    # "the sources already tracked keep running": a run flag cleared on the way to the rejection is the one this call created - by reaching definitions, not by name
+    run.rule('ORDER.reject-clears-own', 'on a path to the rejection only the run flag created by this very call is cleared')
+    from sa.hsmsites import reaching_defs as _rd
+    rd_, valmap_ = _rd(g, f.params)
+    n_cl = 0
+    for r in raises:
+        before = g.reachable(r, forward=False)
+        for n in before:
+            if n.kind in ('entry', 'exit', 'xexit', 'def'):
+                continue
+            for c in n.calls():
+                if isinstance(c.func, ast.Attribute) and c.func.attr == 'clear' and isinstance(c.func.value, ast.Name):
+                    nm = c.func.value.id
+                    ds = rd_[n].get(nm, set())
+                    vals = [valmap_.get(d) for d in ds]
+                    own = bool(vals) and all(isinstance(v, ast.Call) and norm(v.func).split('.')[-1] in ('ThreadEvent', 'Event', 'SourceThreadEvent') for v in vals)
+                    if any('is_set' in norm(x) or 'Event' in norm(v) for v in vals if isinstance(v, ast.AST) for x in [v]) or not own:
+                        n_cl += 1
+                        run.inst('ORDER.reject-clears-own', f, 'clear of %s before the rejection' % nm, own,
+                                 '' if own else ('on the way to the out-of-resources rejection %s.clear() is called, and the name %s does not only stand for the run flag this call created: '
+                                                 'it has been rebound (%s) - the flag that is cleared belongs to a source that is already tracked and running, which stops posting while it '
+                                                 'stays in the tracking deque' % (nm, nm, ', '.join(sorted('a loop/unpacking target' if v is None else norm(v)[:60] for v in vals)))),
+                                 node=c, obligation=True)
+                elif isinstance(c.func, ast.Attribute) and c.func.attr == 'clear' and 'task_run_event' in norm(c.func.value):
+                    n_cl += 1
+                    run.inst('ORDER.reject-clears-own', f, 'clear of %s before the rejection' % norm(c.func.value), False,
+                             'on the way to the rejection the run flag of a tracked record (%s) is cleared' % norm(c.func.value), node=c, obligation=True)
     # nothing that posts may run on a path that ends in the rejection (a helper that makes the source's first activation, called before the admission test)
     from sa.context import callgraph
     cg = callgraph(model)
